@@ -826,9 +826,27 @@ func propC12(r *Run) {
 		{{Key: "gene", Loc: gts.PartialRange(0, 3, gts.Partial3), Props: gts.Props{{"note", "a b"}}},
 			{Key: "gene", Loc: gts.PartialRange(3, 6, gts.Partial5), Props: gts.Props{{"note", "a", "b"}}}},
 	}
+	// the witnesses of the theorems in Gts/Props/C12.lean
+	cds := func(l gts.Location) gts.Feature { return gts.Feature{Key: "CDS", Loc: l, Props: gts.Props{}} }
+	fixed = append(fixed,
+		[]gts.Feature{g(gts.PartialRange(0, 2, gts.Partial3)), cds(gts.Point(1)), g(gts.PartialRange(2, 4, gts.Partial5))},
+		[]gts.Feature{g(gts.Joined{gts.Range(0, 1), gts.Range(2, 3)}), g(gts.Range(4, 5)), g(gts.Range(6, 7)),
+			cds(gts.PartialRange(10, 12, gts.Partial3)), cds(gts.PartialRange(12, 14, gts.Partial5))},
+		[]gts.Feature{g(gts.PartialRange(0, 2, gts.Partial3)), g(gts.PartialRange(2, 4, gts.PartialBoth)), g(gts.PartialRange(4, 5, gts.Partial5)),
+			g(gts.Joined{gts.Range(6, 15), gts.Between(6)})},
+		[]gts.Feature{g(gts.Range(0, 5)), g(gts.Range(6, 15)), g(gts.Between(6))},
+		[]gts.Feature{g(gts.Ambiguous{Start: 0, End: 5}), g(gts.Ambiguous{Start: 5, End: 9})},
+		[]gts.Feature{g(gts.Range(0, 3)), g(gts.Range(3, 6)), g(gts.PartialRange(6, 8, gts.Partial3)),
+			g(gts.PartialRange(9, 12, gts.Partial5)), g(gts.PartialRange(1, 2, gts.PartialBoth)), g(gts.PartialRange(1, 2, gts.PartialBoth))},
+		[]gts.Feature{g(gts.Complemented{Location: gts.Range(0, 3)}), g(gts.Complemented{Location: gts.Range(5, 8)}),
+			g(gts.Between(3)), g(gts.PartialRange(8, 9, gts.Partial3)), g(gts.PartialRange(9, 12, gts.Partial5))},
+	)
 	for _, ff := range fixed {
 		c12Table(r, ff, "fixed")
 	}
+	// … and of the two restoration refutations
+	c12Restore(r, gts.New(nil, []gts.Feature{g(gts.Complemented{Location: gts.Range(0, 6)})}, []byte("acgtac")), []int{3})
+	c12Restore(r, gts.New(nil, []gts.Feature{cds(gts.PartialRange(1, 2, gts.PartialBoth)), g(gts.Range(1, 3))}, []byte("acgt")), []int{1, 2})
 
 	// exhaustive small scope: every table of 2 features over a location set and two classes,
 	// every table of 3 same-class features over a smaller set
